@@ -226,6 +226,7 @@ func runMode(t *testing.T, h *Harness, determinism bool) {
 	distinct := map[uint64]struct{}{}
 	distinctSc := map[uint64]struct{}{}
 	seenClass := map[string]int{}
+	var fallbackSample json.RawMessage
 	start := time.Now()
 	for i := 0; i < maxRuns; i++ {
 		if time.Since(start) > budget {
@@ -301,10 +302,13 @@ func runMode(t *testing.T, h *Harness, determinism bool) {
 				distinctSc[h64(res.Hash)] = struct{}{}
 			}
 			if len(sum.Samples) < 2 {
-				s, _ := json.Marshal(map[string]interface{}{"seed": seed, "scenario": json.RawMessage(raw), "outcome": res.Outcome,
+				s, _ := json.Marshal(map[string]interface{}{"seed": seed, "scenario": json.RawMessage(raw), "outcome": res.Outcome, "nontrivial": true,
 					"steps": res.Steps, "sim_ns": res.SimNs, "trace": headLog(res.Log, 60), "probes": res.Probes, "faults": res.Faults})
 				sum.Samples = append(sum.Samples, s)
 			}
+		} else if fallbackSample == nil {
+			fallbackSample, _ = json.Marshal(map[string]interface{}{"seed": seed, "scenario": json.RawMessage(raw), "outcome": res.Outcome, "nontrivial": false,
+				"steps": res.Steps, "sim_ns": res.SimNs, "trace": headLog(res.Log, 60), "probes": res.Probes, "faults": res.Faults})
 		}
 		switch res.Outcome {
 		case "harness-error", "deadlock":
@@ -332,6 +336,9 @@ func runMode(t *testing.T, h *Harness, determinism bool) {
 				sum.Violations = append(sum.Violations, ViolationReport{Class: v.Class, Msg: rf.Msg, Seed: seed, Replay: path})
 			}
 		}
+	}
+	if len(sum.Samples) == 0 && fallbackSample != nil {
+		sum.Samples = append(sum.Samples, fallbackSample)
 	}
 	for i := range sum.Violations {
 		sum.Violations[i].Count = seenClass[sum.Violations[i].Class]
